@@ -1,4 +1,4 @@
-//@unit props=C18,C13,C08 tier=quick rlimit=30
+//@unit props=C18,C13 tier=quick rlimit=30
 use vstd::prelude::*;
 use vstd::slice::SliceIndexSpec;
 verus! {
